@@ -75,6 +75,7 @@ pub const PALETTE: &[Pal] = &[
     pal("[u8; 7]", true, false, true, 0),                // 29
     pal("Option<u32>", true, false, true, 0),            // 30
     pal("[u64; 40]", true, false, false, 0),             // 31 (320 bytes; serde has no impl for arrays above 32)
+    pal("vtypes::TrackedHuge", false, true, true, 1),    // 32 (1304 bytes, droppable)
 ];
 
 type Builder = NativeRecordDefinitionBuilder<HostTypeResolver>;
@@ -160,6 +161,7 @@ fn add_pal(b: &mut Builder, p: usize, uninit: bool, name: &str) -> Result<DatumI
             29 => add_t::<[u8; 7]>(b, name),
             30 => add_t::<Option<u32>>(b, name),
             31 => add_t::<[u64; 40]>(b, name),
+            32 => add_t::<TrackedHuge>(b, name),
             _ => panic!("unknown palette type {}", p),
         }
     }
@@ -301,6 +303,53 @@ pub fn directed_specs() -> Vec<GSpec> {
     reqs.push(a(21, "abc"));
     reqs.push(cl(Basic));
     push("wide-record", 1, reqs);
+    // a wide serialisable record: more than 16 fields, more than 1 KiB of data, heap-owning
+    // fields before and after every position
+    let mut reqs = Vec::new();
+    let ser_types = [19, 2, 15, 32, 0, 22, 30, 21, 5, 16, 19, 9, 17, 32, 11, 20, 3, 18, 26, 19, 1, 15];
+    for (i, p) in ser_types.iter().enumerate() {
+        reqs.push(a(*p, &format!("s{}", i)));
+    }
+    reqs.push(cl(Simple));
+    reqs.push(rm(3));
+    reqs.push(rm(10));
+    reqs.push(a(21, "after"));
+    reqs.push(a(15, "after2"));
+    reqs.push(cl(Simple));
+    push("wide-serde", 3, reqs);
+    // a huge droppable datum removed while other data are added on its bytes
+    push("byte-reuse-huge", 3, vec![a(32, "huge"), a(3, "n"), a(19, "t"), cl(Simple), rm(0), a(20, "pair"), a(21, "big"), a(15, "s"), a(16, "v"), cl(Simple), rm(4), rm(5), a(32, "huge2"), cl(Simple), rm(7), a(17, "bs"), a(22, "odd"), cl(Basic)]);
+    // many small fields, every other one removed (more than 32 separate holes), several additions
+    // that fill holes, then a third variant
+    let mut reqs = Vec::new();
+    for i in 0..70 {
+        let p = [2, 1, 0, 5][i % 4];
+        reqs.push(if i % 3 == 0 { u(p, &format!("c{}", i)) } else { a(p, &format!("c{}", i)) });
+    }
+    reqs.push(cl(Simple));
+    for i in (1..70).step_by(2) {
+        reqs.push(rm(i));
+    }
+    reqs.push(a(2, "n0"));
+    reqs.push(a(1, "n1"));
+    reqs.push(a(0, "n2"));
+    reqs.push(a(19, "nt"));
+    reqs.push(cl(Simple));
+    for j in 0..4 {
+        reqs.push(a(3, &format!("w{}", j)));
+        reqs.push(a(2, &format!("x{}", j)));
+    }
+    reqs.push(cl(Simple));
+    push("many-small-fields", 0, reqs);
+    // more than 32 data added by one later variant, after a removal that leaves a hole
+    let mut reqs = vec![a(3, "a"), a(2, "b"), a(2, "c"), a(3, "e"), cl(Simple), rm(1)];
+    for j in 0..34 {
+        reqs.push(a(3, &format!("k{}", j)));
+    }
+    reqs.push(a(2, "g"));
+    reqs.push(a(0, "h"));
+    reqs.push(cl(Simple));
+    push("bulk-additions", 0, reqs);
     // many variants: two-digit variant numbers
     let mut reqs = Vec::new();
     let mut issued = 0usize;
@@ -576,9 +625,9 @@ pub fn driver_text(k: usize, spec: &GSpec, built: &Built, reduced: bool, generat
         let _ = writeln!(w, "fn from_unpacked_{v}<const CAP: usize>(ids: &[u64]) -> CappedRecord{v}<CAP> {{ CappedRecord{v}::from(UnpackedRecord{v} {{ {all} }}) }}");
         let _ = writeln!(w, "fn from_unpacked_uninit_{v}<const CAP: usize>(ids: &[u64]) -> CappedRecord{v}<CAP> {{ CappedRecord{v}::from(UnpackedUninitRecord{v} {{ {mandatory} }}) }}");
         // read_all
-        let _ = writeln!(w, "fn read_all_{v}<const CAP: usize>(r: &CappedRecord{v}<CAP>, mask: u64) -> Vec<FieldObs> {{ vec![");
+        let _ = writeln!(w, "fn read_all_{v}<const CAP: usize>(r: &CappedRecord{v}<CAP>, mask: drvlib::Mask) -> Vec<FieldObs> {{ vec![");
         for (i, x) in f.iter().enumerate() {
-            let _ = writeln!(w, "    if mask & (1 << {i}) != 0 {{ obs(r.{}()) }} else {{ skipped() }},", x.name);
+            let _ = writeln!(w, "    if mask & ((1 as drvlib::Mask) << {i}) != 0 {{ obs(r.{}()) }} else {{ skipped() }},", x.name);
         }
         let _ = writeln!(w, "] }}");
         // write
@@ -588,10 +637,10 @@ pub fn driver_text(k: usize, spec: &GSpec, built: &Built, reduced: bool, generat
         }
         let _ = writeln!(w, "    _ => panic!(\"no such field\") }} }}");
         // unpack
-        let _ = writeln!(w, "fn unpack_{v}<const CAP: usize>(r: CappedRecord{v}<CAP>, mask: u64) -> Vec<FieldObs> {{ let u = r.unpack(); vec![");
+        let _ = writeln!(w, "fn unpack_{v}<const CAP: usize>(r: CappedRecord{v}<CAP>, mask: drvlib::Mask) -> Vec<FieldObs> {{ let u = r.unpack(); vec![");
         for (i, x) in f.iter().enumerate() {
             if ok_all.contains(&x.name) {
-                let _ = writeln!(w, "    if mask & (1 << {i}) != 0 {{ obs(&u.{}) }} else {{ skipped() }},", x.name);
+                let _ = writeln!(w, "    if mask & ((1 as drvlib::Mask) << {i}) != 0 {{ obs(&u.{}) }} else {{ skipped() }},", x.name);
             } else {
                 let _ = writeln!(w, "    skipped(),");
             }
@@ -611,12 +660,12 @@ pub fn driver_text(k: usize, spec: &GSpec, built: &Built, reduced: bool, generat
             let plus_all = plus.iter().enumerate().filter(|(_, x)| ok_plus.contains(&x.name)).map(|(i, x)| format!("{}: {}", x.name, mk(PALETTE[x.pal].expr, &format!("ids[{}]", i)))).collect::<Vec<_>>().join(", ");
             let plus_mand = plus.iter().enumerate().filter(|(_, x)| !x.uninit && ok_plus_mand.contains(&x.name)).map(|(i, x)| format!("{}: {}", x.name, mk(PALETTE[x.pal].expr, &format!("ids[{}]", i)))).collect::<Vec<_>>().join(", ");
             let destructure = std::iter::once("record".to_owned()).chain(minus.iter().filter(|m| ok_minus.contains(&m.name)).map(|m| m.name.clone())).chain(std::iter::once("..".to_owned())).collect::<Vec<_>>().join(", ");
-            let returned = minus.iter().enumerate().map(|(i, m)| if ok_minus.contains(&m.name) { format!("if mask & (1 << {i}) != 0 {{ obs(&{}) }} else {{ skipped() }}", m.name) } else { "skipped()".to_owned() }).collect::<Vec<_>>().join(", ");
+            let returned = minus.iter().enumerate().map(|(i, m)| if ok_minus.contains(&m.name) { format!("if mask & ((1 as drvlib::Mask) << {i}) != 0 {{ obs(&{}) }} else {{ skipped() }}", m.name) } else { "skipped()".to_owned() }).collect::<Vec<_>>().join(", ");
             let p = v - 1;
             if reduced {
                 let _ = writeln!(
                     w,
-                    "fn convert_{v}<const CAP: usize>(r: CappedRecord{p}<CAP>, form: u8, ids: &[u64], mask: u64) -> (CappedRecord{v}<CAP>, Vec<FieldObs>) {{ match form {{
+                    "fn convert_{v}<const CAP: usize>(r: CappedRecord{p}<CAP>, form: u8, ids: &[u64], mask: drvlib::Mask) -> (CappedRecord{v}<CAP>, Vec<FieldObs>) {{ match form {{
     0 => (CappedRecord{v}::from((r, UnpackedRecordIn{v} {{ {plus_all} }})), Vec::new()),
     _ => (CappedRecord{v}::from((r, UnpackedUninitRecordIn{v} {{ {plus_mand} }})), Vec::new()),
 }} }}"
@@ -624,7 +673,7 @@ pub fn driver_text(k: usize, spec: &GSpec, built: &Built, reduced: bool, generat
             } else {
             let _ = writeln!(
                 w,
-                "fn convert_{v}<const CAP: usize>(r: CappedRecord{p}<CAP>, form: u8, ids: &[u64], mask: u64) -> (CappedRecord{v}<CAP>, Vec<FieldObs>) {{ match form {{
+                "fn convert_{v}<const CAP: usize>(r: CappedRecord{p}<CAP>, form: u8, ids: &[u64], mask: drvlib::Mask) -> (CappedRecord{v}<CAP>, Vec<FieldObs>) {{ match form {{
     0 => (CappedRecord{v}::from((r, UnpackedRecordIn{v} {{ {plus_all} }})), Vec::new()),
     1 => (CappedRecord{v}::from((r, UnpackedUninitRecordIn{v} {{ {plus_mand} }})), Vec::new()),
     2 => {{ let Record{v}AndUnpackedOut {{ {destructure} }} = Record{v}AndUnpackedOut::from((r, UnpackedRecordIn{v} {{ {plus_all} }})); let o = vec![{returned}]; (record, o) }}
